@@ -23,6 +23,9 @@ def excName : Exc → String
   | .indexError => "IndexError"
   | .runtimeError => "RuntimeError"
   | .noSuchProcess => "NoSuchProcess"
+  | .permissionError => "PermissionError"
+  | .accessDenied => "AccessDenied"
+  | .zombieProcess => "ZombieProcess"
 
 def jOutcome (f : α → Json) : Outcome α → Json
   | .ok v => jObj [("kind", "ok"), ("value", f v)]
@@ -38,7 +41,16 @@ def parseGone (s : String) : R GoneErr :=
 def parseLinkErr (s : String) : R LinkErr :=
   if s == "ENOENT" then .ok .enoent else if s == "ESRCH" then .ok .esrch
   else if s == "EINVAL" then .ok .einval else if s == "ENAMETOOLONG" then .ok .enametoolong
+  else if s == "EACCES" then .ok .eacces
   else .error s!"bad errno {s}"
+
+def parseFileErr (s : String) : R FileErr :=
+  if s == "EACCES" then .ok .denied else (parseGone s).map .gone
+
+def fileErrName : FileErr → String
+  | .gone .enoent => "ENOENT"
+  | .gone .esrch => "ESRCH"
+  | .denied => "EACCES"
 
 def goneName : GoneErr → String
   | .enoent => "ENOENT"
@@ -49,6 +61,7 @@ def linkErrName : LinkErr → String
   | .esrch => "ESRCH"
   | .einval => "EINVAL"
   | .enametoolong => "ENAMETOOLONG"
+  | .eacces => "EACCES"
 
 /-- `{"ok": hex}` or `{"err": "ENOENT"}` -/
 def parseRes (pe : String → R ε) (j : Json) : R (Res ε Bytes) :=
@@ -66,7 +79,27 @@ def jRes (ne : ε → String) : Res ε Bytes → Json
 def parseFS (j : Json) : R FS := do
   let files ← listF asBytes j "files"
   let others ← listF asBytes j "others"
-  pure { isFile := fun p => files.contains p, pathExists := fun p => files.contains p || others.contains p }
+  let denied ← match j.getObjVal? "denied" with
+    | .ok _ => listF asBytes j "denied"
+    | .error _ => pure []
+  pure { isFile := fun p => files.contains p, pathExists := fun p => files.contains p || others.contains p,
+         denied := fun p => denied.contains p }
+
+def optBool (j : Json) (k : String) : R Bool :=
+  match j.getObjVal? k with
+  | .ok (.bool b) => pure b
+  | .ok .null => pure false
+  | .ok _ => .error s!"{k}: not a bool"
+  | .error _ => pure false
+
+def parseDeny (j : Json) : R (Option Spec.DenyAt) :=
+  match j.getObjVal? "denied" with
+  | .ok (.str s) =>
+    if s == "readlink" then pure (some .readlink) else if s == "fdinfo" then pure (some .fdinfo)
+    else .error s!"bad denied {s}"
+  | .ok .null => pure none
+  | .ok _ => .error "denied: not a string"
+  | .error _ => pure none
 
 def parseKind (j : Json) : R Spec.FdKind := do
   let t ← strF j "t"
@@ -98,7 +131,8 @@ def parseFd (j : Json) : R Spec.Fd := do
   let flags ← natF j "flags"
   let tail ← bytesF j "tail"
   let closes ← optF parseStage j "closes"
-  pure ⟨n, kind, pos, flags, tail, closes⟩
+  let deny ← parseDeny j
+  pure ⟨n, kind, pos, flags, tail, closes, deny⟩
 
 /-- `{"ok": hex}` | `{"err": errno}` | `{"ok": hex, "read_err": {"second": b, "errno": errno}}` -/
 def parseInfo (j : Json) : R InfoRes :=
@@ -112,12 +146,16 @@ def parseInfo (j : Json) : R InfoRes :=
       pure (.readErr content second e)
     | .error _ => pure (.ok content)
   | .error _ => do
-    let e ← strF j "err" >>= parseGone
-    pure (.openErr e)
+    let e ← strF j "err"
+    if e == "EACCES" then pure .openDenied
+    else do
+      let e ← parseGone e
+      pure (.openErr e)
 
 def jInfo : InfoRes → Json
   | .ok b => jObj [("ok", jBytes b)]
   | .openErr e => jObj [("err", Json.str (goneName e))]
+  | .openDenied => jObj [("err", Json.str "EACCES")]
   | .readErr b second e =>
     jObj [("ok", jBytes b), ("read_err", jObj [("second", Json.bool second), ("errno", Json.str (goneName e))])]
 
@@ -131,10 +169,10 @@ def jEntry (e : Entry) : Json :=
   jObj [("name", jBytes e.name), ("link", jRes linkErrName e.link), ("info", jInfo e.info)]
 
 def jProc (p : Proc) : Json :=
-  jObj [("alive", Json.bool p.alive),
+  jObj [("alive", Json.bool p.alive), ("zombie", Json.bool p.zombie),
         ("listdir", match p.fdDir with
           | .ok es => jObj [("ok", jList jEntry es)]
-          | .err e => jObj [("err", Json.str (goneName e))])]
+          | .err e => jObj [("err", Json.str (fileErrName e))])]
 
 def parseItem (j : Json) : R Spec.Item := do
   let t ← strF j "t"
@@ -169,10 +207,12 @@ def handle (_ : Unit) (j : Json) : R (Unit × Json) := do
     let fs ← parseFS j
     let gb ← boolF j "gone_before"
     let da ← optF asNat j "dies_at"
-    let w : Spec.World := ⟨fds, fs, gb, da⟩
+    let zombie ← optBool j "zombie"
+    let dirDenied ← optBool j "dir_denied"
+    let w : Spec.World := ⟨fds, fs, gb, da, zombie, dirDenied⟩
     let p := Spec.renderWorld w
     let model := jObj [("open_files", jOutcome (jList jFile) (openFiles cfg fs p)),
-                       ("num_fds", jOutcome jNat (numFds p))]
+                       ("num_fds", jOutcome jNat (numFds cfg p))]
     let spec := jObj [("open_files", jOutcome (jList jFile) (Spec.expectedOpenFiles w)),
                       ("num_fds", jOutcome jNat (Spec.expectedNumFds w))]
     return ((), jObj [("wf", Json.bool (wfAll fs fds)), ("render", jProc p), ("model", model), ("spec", spec)])
@@ -181,10 +221,11 @@ def handle (_ : Unit) (j : Json) : R (Unit × Json) := do
     let alive ← boolF j "alive"
     let ld ← strF j "listdir"
     let entries ← listF parseEntry j "entries"
-    let dir : Res GoneErr (List Entry) ← (if ld == "ok" then pure (.ok entries) else (parseGone ld).map .err)
-    let p : Proc := ⟨dir, alive⟩
+    let zombie ← optBool j "zombie"
+    let dir : Res FileErr (List Entry) ← (if ld == "ok" then pure (.ok entries) else (parseFileErr ld).map .err)
+    let p : Proc := ⟨dir, alive, zombie⟩
     let model := jObj [("open_files", jOutcome (jList jFile) (openFiles cfg fs p)),
-                       ("num_fds", jOutcome jNat (numFds p))]
+                       ("num_fds", jOutcome jNat (numFds cfg p))]
     return ((), jObj [("model", model)])
   else if op == "io_items" then do
     let items ← listF parseItem j "items"
@@ -198,8 +239,9 @@ def handle (_ : Unit) (j : Json) : R (Unit × Json) := do
       ("spec", jIo Spec.documentedFields (Spec.expectedIo items))])
   else if op == "io_raw" then do
     let alive ← boolF j "alive"
-    let file ← field j "file" >>= parseRes parseGone
-    return ((), jObj [("model", jIo cfg.pioFields (ioCounters cfg alive file))])
+    let zombie ← optBool j "zombie"
+    let file ← field j "file" >>= parseRes parseFileErr
+    return ((), jObj [("model", jIo cfg.pioFields (ioCounters cfg alive file zombie))])
   else .error s!"unknown op {op}"
 
 def main : IO Unit := Proto.run () (total handle)
